@@ -6,7 +6,7 @@ TECH = "contract-based deductive verification: weakest-precondition style VCs ge
 
 # property -> (level text, level_note, design_ref)   -- only properties with a working, green check are listed
 CLAIMED = {
- "C13": ("Proof obligations generated from the real code of validFrame, validCloseCode and nextFrame against RFC 6455 predicates (reserved bits/opcodes, fragmented control frames, data frame inside a fragmented message, close-code set, 64-bit length top bit, control frames > 125) plus zero-annotation panic-freedom of those functions; every obligation discharged for all inputs.",
+ "C13": ("Proof obligations generated from the real code of validFrame, validCloseCode, nextFrame, the per-frame critical section of Parse and Parse's dispatch against RFC 6455 predicates: reserved bits/opcodes, fragmented control frames, data frame inside a fragmented message (the fragmentation state equals 'a data message is open' after every data frame, and control frames leave it, the message type and the partial message untouched), opcode set {0,1,2,8,9,10}, close-code set, 64-bit length top bit, control frames > 125, a message is handed on only on FIN, nothing is dispatched after an error; plus zero-annotation panic-freedom of those functions.",
          "Assumed: trusted contracts of encoding/binary, fmt.Errorf; maskXOR's contract (proved separately under C12 when claimed); utf8.Valid; signed arithmetic mathematical in functions not marked ovf. Message-level clauses (UTF-8, close handling, ping/pong replies) are decided only where listed in evidence.",
          "DESIGN.md 4 C13"),
 }
@@ -33,6 +33,10 @@ CLAIMED["C03"] = ("Close teardown is tied to a permission (ghost token) that onl
 CLAIMED["C05"] = ("The job list is a monitor of the connection mutex with ghost counters (submitted, taken, batch base, drainer index, drainer-exists). Proved at every Unlock of Execute, MustExecute and of the drainer closure: a drainer exists iff the list is non-empty; only the submitter that makes the list non-empty creates one (hand-over obligation at the executor call: the closure's precondition holds where it is handed over); the drainer's own index equals the protected index in every section (thread-local knowledge tied to the monitor); every job it takes is jobList[next] with submission number == number of jobs taken so far (FIFO, no gap, no repeat: assert 'order' at each take); it retires exactly when it has consumed everything appended so far; index safety of every jobList access; Execute on a closed connection returns false and leaves the list untouched, otherwise appends exactly one entry and returns true; MustExecute always appends exactly one entry.",
   "Assumed: the engine's executor (Engine.Execute, user-replaceable) runs the closure it is given exactly once (the built-in executors are C19's subject); sync.Mutex mutual exclusion; the job itself is user code reaching the connection only through public methods. The panic barrier is structural (the job call is the only statement of a literal whose deferred literal calls recover) and is inlined, not separately proved. 'HTTP handlers and WebSocket callbacks never overlap' follows only for callers that route through Execute (C10/C14).",
   "DESIGN.md 4 C05")
+
+CLAIMED["C15"] = ("Receive side: nextFrame rejects a frame whose declared length on top of the message assembled so far exceeds MessageLengthLimit (7- and 16-bit classes; the 64-bit class under mathematical integers) and control frames above 125 bytes in all length classes; readAll (inflate loop) never returns more than the limit; the per-frame section of Parse keeps 'assembled message <= limit' and 'delivered message <= limit' and delivered control payloads <= 125; Parse's input cache after appending a read is <= ReadLimit or exactly this read; ErrMessageTooLarge / ErrControlMessageTooBig returned by the frame section lead to WriteClose(1009, ...) before Parse returns (ghost flag + argument assert). Send side: WriteMessage refuses control frames above 125 bytes before any frame is written.",
+  "Assumed: compress/flate (decompressReader, the io.Reader it returns: 0 <= n <= len(p)), the allocator interface contract (C20), the reader's knowledge of the parser state between critical sections (single reader per connection; thread-local ghosts tied to the monitor), message handlers do not touch the reader's private buffers, WriteClose/writeFrame effects (trusted stubs preserving connection state). Signed arithmetic is mathematical: a declared 64-bit length near 2^63 added to a non-empty partial message wraps in the real code (noted in DESIGN.md).",
+  "DESIGN.md 4 C15")
 
 NA = {
  "C18": "termination of Stop/Shutdown and release of goroutines/descriptors for all histories is liveness + whole-process resource state; no contract within reach of a per-function deductive verifier decides it (DESIGN.md 4 C18)",
